@@ -6,10 +6,11 @@
 -/
 import ErgoProofs.Lemmas.StorageThm
 import ErgoProofs.Lemmas.ReachInv
+import ErgoProofs.Lemmas.CodecInst
 namespace Ergo
 open Storage
 
-variable {classify : Bytes → LineClass} {encode : Event → Bytes} {limit : Nat}
+variable {W : Event → Prop} {classify : Bytes → LineClass} {encode : Event → Bytes} {limit : Nat}
 
 /-- the file states a kill between two system calls of an appending command can leave: the write(2) has not been
     entered (at most the tail repair happened) or it has completed -/
@@ -19,8 +20,8 @@ inductive AppendCrashState (classify : Bytes → LineClass) (encode : Event → 
   | after : AppendCrashState classify encode f evs (appendFile classify encode f evs)
 
 /-- all or nothing: a reader of any such state sees exactly the events before the command or exactly those after it -/
-theorem C04_append_all_or_nothing (hc : Codec classify encode) (f g : Bytes) (es evs : List Event)
-    (hr : readEvents classify limit f = .ok es) (hs : Short encode limit evs)
+theorem C04_append_all_or_nothing (hc : CodecOn W classify encode) (f g : Bytes) (es evs : List Event)
+    (hr : readEvents classify limit f = .ok es) (hs : Short W encode limit evs)
     (h : AppendCrashState classify encode f evs g) :
     readEvents classify limit g = .ok es ∨ readEvents classify limit g = .ok (es ++ evs) := by
   cases h with
@@ -29,8 +30,8 @@ theorem C04_append_all_or_nothing (hc : Codec classify encode) (f g : Bytes) (es
   | after => exact Or.inr (appendFile_reads hc f es evs hr hs).1
 
 /-- plan / compact: the log name points to the complete old file until the rename and to the complete new one after it -/
-theorem C04_replace_all_or_nothing (hc : Codec classify encode) (f : Bytes) (es evs : List Event)
-    (hr : readEvents classify limit f = .ok es) (hs : Short encode limit evs) (renamed : Bool) :
+theorem C04_replace_all_or_nothing (hc : CodecOn W classify encode) (f : Bytes) (es evs : List Event)
+    (hr : readEvents classify limit f = .ok es) (hs : Short W encode limit evs) (renamed : Bool) :
     readEvents classify limit (if renamed then replaceFile encode evs else f) = .ok (if renamed then evs else es) := by
   cases renamed
   · simpa using hr
@@ -43,5 +44,13 @@ theorem C04_no_half_claim (log : List Event) (h : ReachOK log) (env : Env) (req 
   refine ⟨?_, ?_⟩
   · obtain ⟨g0, h0, hi⟩ := reach_replay log h; exact ⟨g0, h0, hi.i06⟩
   · obtain ⟨g1, h1, hi⟩ := reach_replay _ (ReachOK.step env req h hg henv); exact ⟨g1, h1, hi.i06⟩
+
+
+/-- ergo's actual line format: a multi-event append killed at any point shows all of the batch or none of it -/
+theorem C04_append_all_or_nothing_json (ets : Event → String) (f g : Bytes) (es evs : List Event)
+    (hr : readEvents Codec.classifyLine limit f = .ok es) (hs : Short Codec.Wf (Codec.encodeEvent ets) limit evs)
+    (hk : AppendCrashState Codec.classifyLine (Codec.encodeEvent ets) f evs g) :
+    readEvents Codec.classifyLine limit g = .ok es ∨ readEvents Codec.classifyLine limit g = .ok (es ++ evs) :=
+  C04_append_all_or_nothing (Codec.jsonCodec ets) f g es evs hr hs hk
 
 end Ergo
